@@ -911,14 +911,16 @@ impl ExprCompiled {
     ) -> ExprCompiled {
         if let (Some(array), Some(start), Some(stop), Some(step)) = (
             array.as_builtin_value(),
-            start.as_ref().map(|e| e.as_value()),
-            stop.as_ref().map(|e| e.as_value()),
-            step.as_ref().map(|e| e.as_value()),
+            // Fold only when every bound is a compile-time constant: a bound which is present
+            // but not constant must not be dropped.
+            start.as_ref().and_then(|e| e.as_value()),
+            stop.as_ref().and_then(|e| e.as_value()),
+            step.as_ref().and_then(|e| e.as_value()),
         ) {
             if let Ok(v) = array.to_value().slice(
-                start.map(|v| v.to_value()),
-                stop.map(|v| v.to_value()),
-                step.map(|v| v.to_value()),
+                Some(start.to_value()),
+                Some(stop.to_value()),
+                Some(step.to_value()),
                 ctx.heap(),
             ) {
                 if let Some(v) = ExprCompiled::try_value(span, v, ctx.frozen_heap()) {
